@@ -685,7 +685,7 @@ func TestVerif_C18_http(t *testing.T) {
 	r := kit.Start(t, "C18", "http")
 	defer r.Finish()
 	thorough := r.Thorough()
-	r.Rule("full product: every path literal tested in Service.ServeHTTP (the conditions of its tagless switch and of its if statements, parsed from http/service.go at run time) with 1-3 (thorough 1-6) well-formed requests each (the path itself, a sub-path or sibling matching the same prefix case, query-string variants) x methods {GET, POST, DELETE, PUT; thorough adds HEAD} x node role {leader: the store answers; follower: the store answers ErrNotLeader and the request is forwarded through the cluster client} x every credentials file of <=2 entries over users {u (password p), *} x permission sets {none, each required permission alone, every required permission, `all`, every permission constant that is not required; thorough adds each non-required constant alone} loaded by the real auth.CredentialsStore x presentation {no credentials, u with a wrong password, u with the right password, unknown user}; each request is written as raw HTTP/1.1 bytes (Connection: close) to a real TCP connection of the started Service and read until the server closes. Oracle: C19 reference decision for the route's documented permission(s); on deny a 4xx/5xx status, no call on the recording store or cluster client, no mock data and no route content signature in the answer; on allow no 401/403. distinct = (route, request, method, role, expected, status, calls, content seen)")
+	r.Rule("full product: every path literal tested in Service.ServeHTTP (the conditions of its tagless switch and of its if statements, parsed from http/service.go at run time) with 1-3 (thorough 1-6) well-formed requests each (the path itself, a sub-path or sibling matching the same prefix case, query-string variants) x methods {GET, POST, DELETE, PUT; thorough adds HEAD} x node role {leader: the store answers; follower: the store answers ErrNotLeader and the request is forwarded through the cluster client} x every credentials file of <=2 entries over users {u (password p), *} x permission sets {none, each required permission alone, every required permission, `all`, every permission constant that is not required; thorough adds each non-required constant alone} loaded by the real auth.CredentialsStore x presentation {no credentials, u with a wrong password, u with the right password, unknown user}; each request is written as raw HTTP/1.1 bytes (Connection: close) to a real TCP connection of the started Service and read until the server closes. Oracle: C19 reference decision for the route's documented permission(s); on deny a 4xx/5xx status, no call on the recording store or cluster client, no mock data and no route content signature in the answer; on allow no 401/403. SEQUENCES: every ordered pair of requests over {POST /db/execute, GET /db/query, GET /db/backup, GET /status} (thorough: over the acting request of every judged route, on a leader and on a follower) sent on ONE keep-alive connection, each with each of 5 presentations {u right password, u wrong password, no credentials, unknown user, valid user v lacking the permission} against a credentials file in which u holds exactly the first route's permission(s) and v the second's; the first answer is read completely, the mock calls taken, then the second request is sent; every request is judged alone by the same oracle. distinct = (route, request, method, role, expected, status, calls, content seen) and per-sequence outcome vectors")
 	r.Assume("route -> permission table as documented for rqlite: execute, query, both for /db/request, backup, load for /db/load and /boot, snapshot for /snapshot and /reap, remove, status for /status /nodes /licenses /debug/*, ready for /readyz, leader-ops for /leader, ui for /console/, query for /db/sql; the repository carries no written table, the constants' doc comments in auth/credential_store.go were used")
 	r.Assume("store and cluster client are recording mocks returning marker data; the credential store is the real auth.CredentialsStore behind a delegating recorder; a failure status is any 4xx/5xx")
 
@@ -696,7 +696,9 @@ func TestVerif_C18_http(t *testing.T) {
 	}
 	table := c18Table()
 	var missing []string
+	present := map[string]bool{}
 	for _, rt := range routes {
+		present[rt.Lit] = true
 		if _, ok := table[rt.Lit]; !ok {
 			missing = append(missing, rt.Lit)
 		}
@@ -709,10 +711,15 @@ func TestVerif_C18_http(t *testing.T) {
 	var replay *c18Case
 	if raw := kit.Replay(); raw != nil {
 		var x struct {
-			Case c18Case `json:"case"`
+			Case     c18Case     `json:"case"`
+			Sequence *c18SeqCase `json:"sequence"`
 		}
 		if err := json.Unmarshal(raw, &x); err != nil {
 			t.Fatalf("replay: %v", err)
+		}
+		if x.Sequence != nil {
+			c18Sequences(t, r, table, present, thorough, x.Sequence.id())
+			return
 		}
 		replay = &x.Case
 	}
@@ -863,6 +870,7 @@ func TestVerif_C18_http(t *testing.T) {
 	if replay != nil {
 		return
 	}
+	r.State(c18Sequences(t, r, table, present, thorough, ""))
 
 	report := map[string]any{}
 	var unj []string
